@@ -197,6 +197,18 @@ Proof.
     rewrite value_pad_left. apply digits_value; lia.
 Qed.
 
+(** parse (print n) = n for the fixed-width upper-case ID *)
+Lemma parse_uint_fmt_hex w n :
+  (1 <= w <= 8)%nat -> 0 <= n < 16 ^ Z.of_nat w -> parse_uint (fmt_hex_upper w n) 16 32 = PU_ok n.
+Proof.
+  intros Hw Hn. destruct (fmt_hex_upper_spec w n ltac:(lia) Hn) as (Hl & Hu & Hv).
+  rewrite parse_uint_hex.
+  - rewrite Hv. reflexivity.
+  - eapply Forall_impl; [exact is_hex_upper_hex|exact Hu].
+  - intros E. rewrite E in Hl. cbn in Hl. lia.
+  - lia.
+Qed.
+
 (** ** encode / decode *)
 Lemma hex_encode_cons v bs :
   hex_encode (v :: bs) = hexdig_lower (v / 16) :: hexdig_lower (v mod 16) :: hex_encode bs.
